@@ -67,7 +67,22 @@ def step(cx, S, body):
                     te, fe = bool_edges(b.term, c)
                     cerr = [t.bb for t in body.calls("=reply_client_id_error")]
                     okc = all(cfg.edge_dominates(te, x) for x in succ) and bool(cerr) and all(x in cfg.after(fe) for x in cerr) and not any(x in cfg.after(fe) for x in succ)
-            lits = [const_strings(body, sl, a) for a in ci[0].args[2:4]]
+            def step_name(a):
+                c = const_strings(body, sl, a)
+                if c: return c
+                # a step enum instead of a string: the variant name is the step
+                out = []
+                for k, o in sl.origins(a):
+                    if k == "agg" and isinstance(o.agg, dict) and o.agg.get("variant"): out.append(o.agg["variant"])
+                if not out and a.place is not None:
+                    for l in ref_chain(du, a.place.l):
+                        for k, d in du.value_defs(l):
+                            if k == "stmt" and d.kind == "assign" and d.rv == "agg" and isinstance(d.agg, dict) and d.agg.get("variant"): out.append(d.agg["variant"])
+                if not out and a.is_const:
+                    v = str((a.const or {}).get("val", ""))
+                    if "::" in v: out.append(v.split("::")[-1])
+                return out
+            lits = [step_name(a) for a in ci[0].args[2:4]]
         cx.check(okc, "C19.R1", "cert:%s:client-id-check-dominates" % S, site, "%s is reachable without check_client_id()==true (or the false edge does not answer ClientIdError)" % what, note_ok="check_client_id()==true dominates %s" % what)
         nxt = STEPS[STEPS.index(S) + 1] if S != "End" else "End"
         cx.check(lits == [[S], [nxt]], "C19.R2", "cert:%s:step-table" % S, site, "check_client_id is called with %s, expected (%r, %r)" % (lits, S, nxt), note_ok="(%s -> %s)" % (S, nxt))
@@ -97,6 +112,17 @@ def step(cx, S, body):
     eqs = [d for k, d in defs if k == "call"]
     consts = [d for k, d in defs if k == "stmt" and d.rv == "use" and d.ops[0].is_const]
     others = [d for k, d in defs if not (k == "call" or (k == "stmt" and d.rv == "use" and d.ops[0].is_const))]
+    if others:
+        # the value may come back from a helper through moves: collect its leaves instead
+        from vlib.cond import bool_sources
+        src = bool_sources(du, loc)
+        if src and all(k in ("call", "const") and not n for k, o, n in src):
+            eqs = [o for k, o, n in src if k == "call"]
+            class _C:       # constant leaf, shaped like the statement the code below expects
+                def __init__(self, v):
+                    self.ops = [type("O", (), {"cint": staticmethod(lambda v=v: v), "is_const": True})()]
+            consts = [_C(o) for k, o, n in src if k == "const"]
+            others = []
     why = []
     if any(d.ops[0].cint() != 0 for d in consts): why.append("an arm sets check = true without comparing")
     if others: why.append("check is computed by something other than a comparison")
@@ -149,7 +175,16 @@ def step(cx, S, body):
             if np == 0 or badp: why.append("Start: %d of %d accepting paths have not established `parameters` absent or equal to the empty object (a present non-object value would be accepted)" % (badp, np))
         mode = None
     else:
-        if len(eqs) != 1 or not (eqs[0].callee.name == "eq" and (S + "_Args") in eqs[0].callee.resolved):
+        def eq_on_args(t):
+            if t.callee.name != "eq": return False
+            if (S + "_Args") in t.callee.resolved: return True
+            # a generic helper compares `&T` with `&T`: the operands handed in by this step have the step's argument type
+            for a in t.args:
+                if a.place is None: continue
+                if any((S + "_Args") in body.ty(l) for l in ref_chain(du, a.place.l)): return True
+                if any(k == "call" and o.callee.name == "from_value" and any((S + "_Args") in str(x) for x in o.callee.targs) for k, o in Slice(body, du, extra_pass=("=clone", "=as_ref", "=ok", "=unwrap_or_default")).origins(a)): return True
+            return False
+        if len(eqs) != 1 or not eq_on_args(eqs[0]):
             why.append("check is not `expected == received` on %s_Args (defs: %s)" % (S, [str(d.callee)[:60] for d in eqs]))
         else:
             E = eqs[0]
